@@ -71,3 +71,64 @@ def c01(tier: str) -> int:
                         'projection functions harness/vocab.py are trusted',
                         'string facts are computed with the standard library']
     return rep.finish()
+
+
+def _grammar_check(pid: str, tier: str, cfgs: dict, owned: set, make_event, *, reverse=False, extra_sp=1,
+                   child_event=None, expand=None) -> int:
+    """Common shape of the conversion-family checks: exhaustive TLC run of a grammar config with
+    its laws, dump, replay of every case into the real code with `make_event`, TLC validation."""
+    rep = Report(pid, tier)
+    cfg = cfgs[tier]
+    res = engine.model_check('MC_Grammar', cfg, dump=True)
+    rep.add_mc(res, cfg)
+    if res.violated:
+        rep.witness({'clause': 'law-of-sem', 'type_kind': ','.join(res.violated), 'value_kind': ''},
+                    {'tlc_output_tail': res.out[-3000:]})
+        return rep.finish()
+    tvs = pipeline.cases_from_states(engine.dump_states(res))
+    if expand:
+        tvs = expand(tvs)
+    rep.exhaustive = True
+    st = pipeline.run_events(rep, pipeline.spread_spellings(tvs, extra_sp), owned, label=pid.lower(),
+                             make_event=make_event, reverse=reverse, child_event=child_event)
+    rep.extra['replay'] = st
+    rep.assumptions += ['small-scope: types up to the configured depth over the leaf kinds of the config',
+                        'projection functions harness/vocab.py are trusted',
+                        'string facts are computed with the standard library']
+    return rep.finish()
+
+
+SCALAR_CFGS = {'quick': 'MC_Grammar_scalar_q.cfg', 'thorough': 'MC_Grammar_scalar_t.cfg'}
+
+C03_CLAUSES = {'passes-disagree', 'internal-runtime-error', 'converterror-without-tree', 'accepted-with-tree', 'pass-raised'}
+
+
+@check('C03')
+def c03(tier: str) -> int:
+    return _grammar_check('C03', tier, SCALAR_CFGS, C03_CLAUSES, conv.ev_passes)
+
+
+@check('C09')
+def c09(tier: str) -> int:
+    return _grammar_check('C09', tier, SCALAR_CFGS, {'input-mutated'}, conv.ev_snapshot, extra_sp=0)
+
+
+C05_CLAUSES = {'serialise-failed', 'not-interchange', 'serialised-form', 'reparse-failed', 'reparse-differs',
+               'reserialise-failed', 'reserialise-differs'}
+
+
+@check('C05')
+def c05(tier: str) -> int:
+    return _grammar_check('C05', tier, SCALAR_CFGS, C05_CLAUSES, conv.ev_roundtrip, extra_sp=0)
+
+
+C06_CLAUSES = {'fixpoint-refused', 'fixpoint-differs', 'native-refused', 'native-differs', 'twice-refused', 'twice-differs'}
+
+
+@check('C06')
+def c06(tier: str) -> int:
+    return _grammar_check('C06', tier, SCALAR_CFGS, C06_CLAUSES, conv.ev_fixpoint, extra_sp=0)
+
+
+_EVENT_MAKERS.update({'passes': conv.ev_passes, 'snapshot': conv.ev_snapshot, 'roundtrip': conv.ev_roundtrip,
+                      'fixpoint': conv.ev_fixpoint})
